@@ -29,18 +29,26 @@ Definition vol_ok (v : option N) : bool :=
     observation before the operation *)
 Definition valid_op (tick : N) (o1 : observation) (o : op) : bool :=
   let n := length (ob_orders o1) in
-  let room v := (ob_bid_vol o1 + v <? W32) && (ob_ask_vol o1 + v <? W32) && (ob_tvol o1 + v <? W32) in
+  (* room: the side the volume may come to rest on, and the traded-volume counter, stay below 2^32
+     (a sufficient condition for the absence of u32 overflow, evaluated before the operation) *)
+  let room (sd : side) v :=
+    ((match sd with Bid => ob_bid_vol o1 | Ask => ob_ask_vol o1 end) + v <? W32) && (ob_tvol o1 + v <? W32) in
+  let side_of id := o_side (oget (ob_orders o1) id) in
   let stamps := ob_t o1 + N.of_nat n + 2 <? MAXT in
   match o with
   | OCreate _ v _ p => (1 <=? v) && (v <? W32) && (match p with Some p => (0 <? p) && (p <? MAXP) | None => true end)
-  | OCreatePlace _ v _ p =>
-      (1 <=? v) && room v && stamps && (match p with Some p => (0 <? p) && (p <? MAXP) | None => true end)
+  | OCreatePlace sd v _ p =>
+      (1 <=? v) && room sd v && stamps && (match p with Some p => (0 <? p) && (p <? MAXP) | None => true end)
   | OPlace id | OEvent (EvNew id) =>
-      Nat.ltb id n && room (o_vol (oget (ob_orders o1) id)) && stamps
+      Nat.ltb id n && room (side_of id) (o_vol (oget (ob_orders o1) id)) && stamps
   | OCancel id | OEvent (EvCancel id) => Nat.ltb id n
   | OModify id p v | OEvent (EvModify id p v) =>
       Nat.ltb id n && price_ok tick p && vol_ok v && stamps
-      && room (match v with Some v => v | None => o_vol (oget (ob_orders o1) id) end)
+      && (let ord := oget (ob_orders o1) id in
+          let cur := if status_eqb (o_status ord) SActive then o_vol ord else 0 in
+          let v' := match v with Some v => v | None => o_vol ord end in
+          (* the order's own resting volume is replaced, not added to *)
+          ((match side_of id with Bid => ob_bid_vol o1 | Ask => ob_ask_vol o1 end) - cur + v' <? W32) && (ob_tvol o1 + v' <? W32))
   | OSetTime t => (ob_t o1 <=? t) && (t + N.of_nat n + 2 <? MAXT)
   | _ => true
   end.
